@@ -251,7 +251,7 @@ func runC03_2(c *core.Ctx) {
 		if cf == nil {
 			return false
 		}
-		switch cf.Name() {
+		switch nameOf(cf) {
 		case "EpollWait", "epollWait", "Kevent":
 			return true
 		}
@@ -905,7 +905,7 @@ func runC03_11(c *core.Ctx) {
 				c.Violate(f.Name, construct, call.Pos(), "Trigger priority is not a compile-time constant")
 				continue
 			}
-			if mustHigh[f.Obj.Name()] {
+			if mustHigh[nameOf(f.Obj)] {
 				c.Check(constant.Compare(pv, token.EQL, hp.Val()), f.Name, construct+" priority", call.Pos(), "HighPriority", "this request must be submitted with HighPriority (ordering of asynchronous writes / prompt exit), but is not")
 			}
 			// receiver poller path: for conn methods it must be c.loop.poller with c the receiver
